@@ -712,6 +712,39 @@ func checkFieldCorrespondence(w *World, r *Report) {
 				key := kv.Key.(*ast.Ident).Name
 				sel, ok := kv.Value.(*ast.SelectorExpr)
 				if !ok {
+					// not a plain field copy: if the value still mentions the counterpart
+					// struct, the field is transformed on its way through compile/load
+					mentionsOther := false
+					ast.Inspect(kv.Value, func(m ast.Node) bool {
+						if s2, ok := m.(*ast.SelectorExpr); ok {
+							t2 := w.Info.TypeOf(s2.X)
+							if (toCompiled && isNamed(t2, twigPath, "Template")) || (toTemplate && isNamed(t2, twigPath, "CompiledTemplate")) {
+								mentionsOther = true
+							}
+						}
+						return true
+					})
+					// … or if the counterpart is a parameter of the function at all (the value
+					// went through a local first)
+					counterpart := "Template"
+					if toTemplate {
+						counterpart = "CompiledTemplate"
+					}
+					if fd.Type.Params != nil {
+						for _, pf := range fd.Type.Params.List {
+							if isNamed(w.Info.TypeOf(pf.Type), twigPath, counterpart) {
+								mentionsOther = true
+							}
+						}
+					}
+					_, tracked := pairs[key]
+					if toTemplate {
+						tracked = inv[key] != ""
+					}
+					if tracked && mentionsOther {
+						n++
+						r.bad("R16.1", w.declName(fd), fmt.Sprintf("%s: %s", key, types.ExprString(kv.Value)), w.pos(kv), "the field is not copied but computed from the counterpart's field: name, source or timestamp are altered by compile/load, so the compiled form is not interchangeable with the source")
+					}
 					continue
 				}
 				var want string
